@@ -219,13 +219,14 @@ AXES = ["self", "child", "attribute", "parent", "ancestor", "ancestor-or-self", 
 
 class Gen:
     def __init__(self, rng, names=("a", "b", "c"), attrs=("x", "y", "id"), strs=("t", "u", "1", "2", " ", ""),
-                 vars_=None, pis=("t", "u"), nsmap=None, keys=(), ext=False):
+                 vars_=None, pis=("t", "u"), nsmap=None, keys=(), ext=False, current=False):
         self.r = rng
         self.names, self.attrs, self.strs, self.pis = names, attrs, strs, pis
         self.vars = vars_ or {}      # name -> type
         self.nsmap = nsmap or {}     # prefix -> uri usable in name tests
         self.keys = list(keys)       # names of declared xsl:key (stylesheet context only)
         self.ext = ext               # generate calls of the bundled EXSLT / xalan: extension functions
+        self.current = current       # generate current() (XSLT 12.4): inside predicates it differs from the context node
 
     def test(self, axis):
         r = self.r.random()
@@ -258,6 +259,18 @@ class Gen:
             return bin_(self.r.choice(["=", "!=", "<", "<=", ">", ">="]), fn("position"), self.r.choice([num(1), num(2), fn("last"), bin_("-", fn("last"), num(1))]))
         if r < 0.6:
             return bin_("=", bin_("mod", fn("position"), num(2)), num(self.r.randint(0, 1)))
+        if self.current and r < 0.72:
+            # compare something of the context node with the same thing of the current node
+            what = self.r.choice([[step("attribute", t_name(self.r.choice(self.attrs)))], [step("self", T_NODE)], [step("parent", T_NODE)], [step("child", T_TEXT)]])
+            lhs = path([dict(x) for x in what]); rhs = path([dict(x) for x in what], start=fn("current"))
+            c = self.r.random()
+            if c < 0.4:
+                return bin_(self.r.choice(["=", "!="]), lhs, rhs)
+            if c < 0.6:
+                return bin_("=", fn("name"), fn("name", fn("current")))
+            if c < 0.8:
+                return bin_("=", fn("count", bin_("|", path([step("self", T_NODE)]), fn("current"))), num(self.r.choice([1, 2])))
+            return bin_(self.r.choice(["<", ">="]), fn("count", path([step("ancestor", T_NODE, abbr=False)])), fn("count", path([step("ancestor", T_NODE, abbr=False)], start=fn("current"))))
         if d <= 0:
             return self.ns(0)
         return self.any(d - 1)
@@ -309,6 +322,8 @@ class Gen:
 
     def ns_primary(self, d):
         nsvars = [k for k, t in self.vars.items() if t == "ns"]
+        if self.current and self.r.random() < 0.35:
+            return fn("current")
         if nsvars and self.r.random() < 0.5:
             return var(self.r.choice(nsvars))
         return fn("id", lit(self.r.choice(["i1", "i2", "i1 i2"])))
